@@ -210,6 +210,7 @@ var specHuge = pbt.Register(&pbt.Spec[HCase]{
 		"and the resulting length equals the model's. Reverse is left out (it walks len/2 elements). non-trivial = input or result length >= 2^31",
 	Enum: enumerateHuge,
 	Run:  RunHuge, Exhaustive: true,
+	Replicas: 4, ReplicaEvery: 8,
 	Assumes: []string{"C12.huge: the helpers other than Reverse do O(1)/O(log n) work on zero-size elements (as the code under test does); " +
 		"a correct but element-by-element re-implementation would not finish at these lengths and would be reported as divergence"},
 })
